@@ -1,14 +1,707 @@
-// Package c07 is the correspondence area of property C07 (stub: the slice is not built yet).
+// Package c07 corresponds the metadata path of grpcbridge with the Lean model GB.C07:
+//
+//	bin   grpcadapter.decodeBinHeader
+//	filt  NewProxyMDFilter(opts).FilterRequestMD / FilterResponseMD / FilterTrailerMD
+//	fwd   NewProxyForwarder(filter).Forward with a recording incoming stream and target
+//	e2e   the five entry points (real webbridge handlers behind httptest driven by a raw
+//	      HTTP/WebSocket client; GRPCProxy behind a bufconn grpc.Server driven by grpc-go)
+//	      in front of a recording scripted target: what the target receives, the deadline it
+//	      runs under, and everything the client can observe.
 package c07
 
 import (
+	"bytes"
+	"context"
+	"encoding/base64"
+	"encoding/binary"
+	"fmt"
+	"io"
 	"math/rand"
+	"net"
+	"net/http"
+	"net/http/httptest"
+	"net/textproto"
+	"net/url"
+	"strings"
+	"time"
+
+	"github.com/renbou/grpcbridge"
+	"github.com/renbou/grpcbridge/bridgelog"
+	"github.com/renbou/grpcbridge/grpcadapter"
+	"github.com/renbou/grpcbridge/webbridge"
+	"google.golang.org/grpc"
+	"google.golang.org/grpc/credentials/insecure"
+	"google.golang.org/grpc/metadata"
+	"google.golang.org/grpc/test/bufconn"
+	"google.golang.org/protobuf/types/known/emptypb"
+	"verif/harness/c07/fake"
+	"verif/harness/common"
 )
 
 type Area struct{}
 
 func (Area) Name() string { return "c07" }
 
-func (Area) Exec(input string) string { return "UNIMPLEMENTED" }
+type opts = grpcadapter.ProxyMDFilterOpts
 
-func (Area) Gen(r *rand.Rand, tier string, emit func(string)) {}
+func parseOpts(f []string) opts {
+	return opts{
+		AllowRequestMD: fake.ParseList(f[0]), PrefixRequestMD: string(common.MustUnHex(f[1])),
+		AllowResponseMD: fake.ParseList(f[2]), PrefixResponseMD: string(common.MustUnHex(f[3])),
+		AllowTrailerMD: fake.ParseList(f[4]), PrefixTrailerMD: string(common.MustUnHex(f[5])),
+	}
+}
+
+func showOpts(o opts) string {
+	return strings.Join([]string{fake.ShowList(o.AllowRequestMD), common.HexS(o.PrefixRequestMD),
+		fake.ShowList(o.AllowResponseMD), common.HexS(o.PrefixResponseMD),
+		fake.ShowList(o.AllowTrailerMD), common.HexS(o.PrefixTrailerMD)}, " ")
+}
+
+func (Area) Exec(input string) string {
+	f := strings.Fields(input)
+	switch f[0] {
+	case "bin":
+		b, err := grpcadapter.VerifDecodeBinHeader(string(common.MustUnHex(f[1])))
+		if err != nil {
+			return "none"
+		}
+		return "some:" + common.Hex(b)
+	case "filt":
+		flt := grpcadapter.NewProxyMDFilter(parseOpts(f[2:8]))
+		md := metadata.MD(fake.ParseMD(f[8]))
+		var out metadata.MD
+		switch f[1] {
+		case "req":
+			out = flt.FilterRequestMD(md)
+		case "resp":
+			out = flt.FilterResponseMD(md)
+		case "trl":
+			out = flt.FilterTrailerMD(md)
+		default:
+			return "BADOP"
+		}
+		return fake.ShowMD(out)
+	case "fwd":
+		return execFwd(parseOpts(f[1:7]), fake.ParseMD(f[7]), fake.ParseMD(f[8]), fake.ParseMD(f[9]), f[10])
+	case "e2e":
+		return execE2E(f[1], parseOpts(f[2:8]), fake.ParseMD(f[8]), fake.ParsePairs(f[9]), fake.ParseMD(f[10]), fake.ParseMD(f[11]), f[12])
+	}
+	return "BADOP"
+}
+
+func newTarget(hdr, trl map[string][]string, mode string) *fake.Target {
+	n := 1
+	if mode == "stream" {
+		n = 2
+	}
+	return &fake.Target{Header: metadata.MD(hdr), Trailer: metadata.MD(trl), Responses: n}
+}
+
+func execFwd(o opts, ctxMD, hdr, trl map[string][]string, mode string) string {
+	pf := grpcadapter.NewProxyForwarder(grpcadapter.ProxyForwarderOpts{Filter: grpcadapter.NewProxyMDFilter(o)})
+	tgt := newTarget(hdr, trl, mode)
+	rt := &fake.Router{Conn: tgt, ServerStreaming: mode == "stream"}
+	_, route, _ := rt.RouteGRPC(context.Background())
+	inc := fake.NewIncoming(1)
+	ctx, cancel := context.WithCancel(context.Background())
+	defer cancel()
+	ctx = metadata.NewIncomingContext(ctx, metadata.MD(ctxMD))
+	err := pf.Forward(ctx, grpcadapter.ForwardParams{Target: route.Target, Service: route.Service, Method: route.Method, Incoming: inc, Outgoing: tgt})
+	if err != nil {
+		return "ERR " + common.HexS(err.Error())
+	}
+	_, out, dl := tgt.Snapshot()
+	t := "unset"
+	if inc.TrlSet > 0 {
+		t = fake.ShowMD(inc.Trl)
+	}
+	return fmt.Sprintf("out=%s dl=%s hdr=%s trl=%s", fake.ShowMD(out), dl, fake.ShowMD(inc.Hdr), t)
+}
+
+
+// ---------- end to end ----------
+
+var wsInfra = map[string]bool{"Upgrade": true, "Connection": true, "Sec-Websocket-Accept": true, "Sec-Websocket-Protocol": true, "Sec-Websocket-Extensions": true}
+
+func execE2E(entry string, o opts, sent map[string][]string, pairs [][2]string, thdr, ttrl map[string][]string, mode string) string {
+	pf := grpcadapter.NewProxyForwarder(grpcadapter.ProxyForwarderOpts{Filter: grpcadapter.NewProxyMDFilter(o)})
+	tgt := newTarget(thdr, ttrl, mode)
+	rt := &fake.Router{Conn: tgt, ServerStreaming: mode == "stream"}
+
+	var seen http.Header
+	wrap := func(h http.Handler) http.Handler {
+		return http.HandlerFunc(func(w http.ResponseWriter, r *http.Request) {
+			seen = r.Header.Clone()
+			h.ServeHTTP(w, r)
+		})
+	}
+	// header lines in a deterministic order: sorted keys, values in order
+	var lines [][2]string
+	for _, k := range sortedKeys(sent) {
+		for _, v := range sent[k] {
+			lines = append(lines, [2]string{k, v})
+		}
+	}
+
+	var ch, ct map[string][]string
+	switch entry {
+	case "http":
+		srv := httptest.NewServer(wrap(webbridge.NewTranscodedHTTPBridge(rt, webbridge.TranscodedHTTPBridgeOpts{Forwarder: pf})))
+		defer srv.Close()
+		rc, err := fake.Dial(srv.Listener.Addr().String())
+		if err != nil {
+			return "ERR dial"
+		}
+		defer rc.Close()
+		if err := rc.WriteRequest("GET", "/x", lines, nil); err != nil {
+			return "ERR write"
+		}
+		resp, err := rc.ReadResponse("GET")
+		if err != nil {
+			return "ERR read " + common.HexS(err.Error())
+		}
+		_, _ = io.ReadAll(resp.Body)
+		ch, ct = resp.Header, resp.Trailer
+	case "grpcweb":
+		srv := httptest.NewServer(wrap(webbridge.NewGRPCWebBridge(rt, webbridge.GRPCWebBridgeOpts{Forwarder: pf})))
+		defer srv.Close()
+		rc, err := fake.Dial(srv.Listener.Addr().String())
+		if err != nil {
+			return "ERR dial"
+		}
+		defer rc.Close()
+		if err := rc.WriteRequest("POST", "/verif.S/M", lines, []byte{0, 0, 0, 0, 0}); err != nil {
+			return "ERR write"
+		}
+		resp, err := rc.ReadResponse("POST")
+		if err != nil {
+			return "ERR read " + common.HexS(err.Error())
+		}
+		body, _ := io.ReadAll(resp.Body)
+		ch = resp.Header
+		_, trailers := splitGRPCWeb(body)
+		ct = map[string][]string{}
+		if len(trailers) > 0 {
+			ct = trailers[len(trailers)-1]
+		}
+		delete(ct, "grpc-status")
+		delete(ct, "grpc-message")
+	case "ws", "grpcws":
+		var h http.Handler
+		if entry == "ws" {
+			h = webbridge.NewTranscodedWebSocketBridge(rt, webbridge.TranscodedWebSocketBridgeOpts{Forwarder: pf})
+		} else {
+			// Logger set explicitly: NewGRPCWebSocketBridge dereferences opts.Logger before applying its defaults
+			h = webbridge.NewGRPCWebSocketBridge(rt, webbridge.GRPCWebBridgeOpts{Forwarder: pf, Logger: bridgelog.Discard()})
+		}
+		srv := httptest.NewServer(wrap(h))
+		defer srv.Close()
+		rc, err := fake.Dial(srv.Listener.Addr().String())
+		if err != nil {
+			return "ERR dial"
+		}
+		defer rc.Close()
+		target := "/x"
+		hs := fake.WSHandshake()
+		if entry == "ws" {
+			q := url.Values{}
+			for _, p := range pairs {
+				q.Add("_metadata["+p[0]+"]", p[1])
+			}
+			if len(q) > 0 {
+				target += "?" + q.Encode()
+			}
+		} else {
+			target = "/verif.S/M"
+			hs = append(hs, [2]string{"Sec-WebSocket-Protocol", "grpc-websockets"})
+		}
+		if err := rc.WriteRequest("GET", target, append(hs, lines...), nil); err != nil {
+			return "ERR write"
+		}
+		resp, err := rc.ReadResponse("GET")
+		if err != nil {
+			return "ERR read " + common.HexS(err.Error())
+		}
+		if resp.StatusCode != 101 {
+			return "fwd=0 st=" + fmt.Sprint(resp.StatusCode)
+		}
+		ch = map[string][]string{}
+		for k, v := range resp.Header {
+			if !wsInfra[k] {
+				ch[k] = v
+			}
+		}
+		ct = map[string][]string{}
+		if entry == "grpcws" {
+			var sb strings.Builder
+			for _, p := range pairs {
+				fmt.Fprintf(&sb, "%s: %s\r\n", p[0], p[1])
+			}
+			_ = rc.WriteWSFrame(2, []byte(sb.String()))
+			_ = rc.WriteWSFrame(2, []byte{0, 0, 0, 0, 0, 2, 8, 1})
+			_ = rc.WriteWSFrame(2, []byte{1})
+		}
+		frames := rc.ReadWSFrames()
+		if entry == "grpcws" {
+			var buf []byte
+			for _, fr := range frames {
+				if fr.Opcode == 2 {
+					buf = append(buf, fr.Payload...)
+				}
+			}
+			_, hf := splitGRPCWeb(buf)
+			switch len(hf) {
+			case 0:
+			case 1:
+				ct = hf[0]
+			default:
+				for k, v := range hf[0] {
+					ch[k] = v
+				}
+				ct = hf[len(hf)-1]
+			}
+			delete(ct, "grpc-status")
+			delete(ct, "grpc-message")
+		}
+	case "proxy":
+		return execProxy(pf, rt, tgt, sent, mode)
+	default:
+		return "BADENTRY"
+	}
+
+	n, out, dl := tgt.Snapshot()
+	if n == 0 {
+		return "fwd=0"
+	}
+	seenMD := map[string][]string(seen)
+	if entry == "grpcws" {
+		seenMD = map[string][]string{}
+	}
+	return fmt.Sprintf("fwd=1 seen=%s out=%s dl=%s ch=%s ct=%s", fake.ShowMD(seenMD), fake.ShowMD(out), dl, fake.ShowMD(ch), fake.ShowMD(ct))
+}
+
+// splitGRPCWeb splits a gRPC-Web body into message payloads and parsed header/trailer frames.
+func splitGRPCWeb(b []byte) (msgs [][]byte, hdrFrames []map[string][]string) {
+	for len(b) >= 5 {
+		n := int(binary.BigEndian.Uint32(b[1:5]))
+		if n > len(b)-5 {
+			n = len(b) - 5
+		}
+		p := b[5 : 5+n]
+		if b[0]&0x80 != 0 {
+			md := map[string][]string{}
+			for _, line := range bytes.Split(p, []byte("\r\n")) {
+				if len(line) == 0 {
+					continue
+				}
+				k, v, _ := bytes.Cut(line, []byte(": "))
+				md[string(k)] = append(md[string(k)], string(v))
+			}
+			hdrFrames = append(hdrFrames, md)
+		} else {
+			msgs = append(msgs, p)
+		}
+		b = b[5+n:]
+	}
+	return
+}
+
+func execProxy(pf *grpcadapter.ProxyForwarder, rt *fake.Router, tgt *fake.Target, sent map[string][]string, mode string) string {
+	proxy := grpcbridge.NewGRPCProxy(rt, grpcbridge.WithForwarder(pf))
+	lis := bufconn.Listen(1 << 16)
+	srv := grpc.NewServer(proxy.AsServerOption())
+	go func() { _ = srv.Serve(lis) }()
+	defer srv.Stop()
+	cc, err := grpc.NewClient("passthrough:///bufnet", grpc.WithTransportCredentials(insecure.NewCredentials()),
+		grpc.WithContextDialer(func(ctx context.Context, _ string) (net.Conn, error) { return lis.DialContext(ctx) }))
+	if err != nil {
+		return "ERR client"
+	}
+	defer cc.Close()
+
+	// guard against hangs without giving the call a deadline of our own (a deadline would reach the target)
+	ctx, cancel := context.WithCancel(context.Background())
+	defer cancel()
+	guard := time.AfterFunc(5*time.Second, cancel)
+	defer guard.Stop()
+	md := metadata.MD{}
+	for k, vs := range sent {
+		if strings.EqualFold(k, "grpc-timeout") {
+			// grpc-go sends grpc-timeout from the context deadline only
+			if d, ok := grpcadapter.VerifDecodeTimeout(vs[0]); ok {
+				var c2 context.CancelFunc
+				ctx, c2 = context.WithTimeout(ctx, d)
+				defer c2()
+			}
+			continue
+		}
+		md[k] = vs // keys as given: grpc-go lower-cases them itself
+	}
+	ctx = metadata.NewOutgoingContext(ctx, md)
+	st, err := cc.NewStream(ctx, &grpc.StreamDesc{ClientStreams: true, ServerStreams: true}, "/verif.S/M")
+	if err != nil {
+		return "fwd=0 err=" + common.HexS(err.Error())
+	}
+	if err := st.SendMsg(&emptypb.Empty{}); err != nil {
+		return "fwd=0 err=" + common.HexS(err.Error())
+	}
+	_ = st.CloseSend()
+	var rerr error
+	for {
+		if rerr = st.RecvMsg(&emptypb.Empty{}); rerr != nil {
+			break
+		}
+	}
+	if rerr != io.EOF {
+		n, _, _ := tgt.Snapshot()
+		if n == 0 {
+			return "fwd=0 err=" + common.HexS(rerr.Error())
+		}
+	}
+	ch, _ := st.Header()
+	ct := st.Trailer()
+	chm := map[string][]string{}
+	for k, v := range ch {
+		if k != "content-type" {
+			chm[k] = v
+		}
+	}
+	n, out, dl := tgt.Snapshot()
+	if n == 0 {
+		return "fwd=0"
+	}
+	_, _, _, seen := rt.Calls()
+	return fmt.Sprintf("fwd=1 seen=%s out=%s dl=%s ch=%s ct=%s", fake.ShowMD(seen), fake.ShowMD(out), dl, fake.ShowMD(chm), fake.ShowMD(map[string][]string(ct)))
+}
+
+func sortedKeys(m map[string][]string) []string {
+	ks := make([]string, 0, len(m))
+	for k := range m {
+		ks = append(ks, k)
+	}
+	// insertion sort keeps the import list short
+	for i := 1; i < len(ks); i++ {
+		for j := i; j > 0 && ks[j] < ks[j-1]; j-- {
+			ks[j], ks[j-1] = ks[j-1], ks[j]
+		}
+	}
+	return ks
+}
+
+var _ = textproto.CanonicalMIMEHeaderKey
+
+// ---------- generators ----------
+
+var keyPool = []string{
+	"x-a", "X-B", "x-c", "authorization", "Authorization", "cookie", "x-internal",
+	"Grpc-Metadata-Foo", "grpc-metadata-x-a", "grpc-metadata-data-bin", "GRPC-METADATA-UP", "grpc-metadata-",
+	"data-bin", "x-bin", "X-Sig-Bin", "-bin", "a-bin",
+	"grpc-timeout", "Grpc-Timeout", "grpc-metadata-grpc-timeout", "Grpc-Metadata-Grpc-Timeout", "timeout",
+	"connection", "keep-alive", "te", "upgrade", "proxy-authorization", "host", "content-type", "user-agent", "accept-encoding",
+	":authority", ":path", "grpc-status", "grpc-message", "grpc-encoding", "date", "content-length",
+}
+
+// tokens only: usable as HTTP/1.1 header names and gRPC metadata keys
+var tokenKeys = []string{
+	"x-a", "X-B", "x-c", "authorization", "Authorization", "cookie", "x-internal",
+	"Grpc-Metadata-Foo", "grpc-metadata-x-a", "grpc-metadata-data-bin", "GRPC-METADATA-UP",
+	"data-bin", "x-bin", "X-Sig-Bin", "a-bin",
+	"grpc-timeout", "Grpc-Timeout", "grpc-metadata-grpc-timeout", "timeout",
+	"keep-alive", "te", "proxy-authorization", "user-agent", "accept-encoding", "x-forwarded-for",
+}
+
+var respKeys = []string{"x-r", "X-S", "x-internal", "set-cookie", "server", "r-bin", "x-a", "grpc-metadata-foo", "etag", "x-trace"}
+
+var prefixPool = []string{"", "", "", "x-", "grpcgateway-", "Grpc-", "grpc-", "Grpc-Metadata-", "p"}
+
+var timeouts = []string{"10S", "1M", "2H", "30S", "90000m", "20000000u", "99999999H", "abc", "-1S", "+1S", "", "1", "S", "123456789S", "7s"}
+
+func pickKeys(r *rand.Rand, pool []string, max int) []string {
+	n := r.Intn(max + 1)
+	var out []string
+	for i := 0; i < n; i++ {
+		k := common.Pick(r, pool)
+		switch r.Intn(8) {
+		case 0:
+			k = strings.ToUpper(k)
+		case 1:
+			k = strings.ToLower(k)
+		}
+		out = append(out, k)
+	}
+	return out
+}
+
+func printable(r *rand.Rand) string {
+	return string(common.RandBytes(r, 1+r.Intn(8), []byte("abcdefXYZ0189-_=+/., ")))
+}
+
+func binValue(r *rand.Rand) string {
+	raw := common.RandBytes(r, r.Intn(9), nil)
+	switch r.Intn(7) {
+	case 0, 1:
+		return base64.StdEncoding.EncodeToString(raw)
+	case 2, 3:
+		return base64.RawStdEncoding.EncodeToString(raw)
+	case 4:
+		return base64.URLEncoding.EncodeToString(raw)
+	case 5:
+		s := base64.StdEncoding.EncodeToString(raw)
+		if len(s) > 1 {
+			p := r.Intn(len(s))
+			return s[:p] + common.Pick(r, []string{"=", "!", " ", "A", "=="}) + s[p:]
+		}
+		return s + "="
+	default:
+		return printable(r)
+	}
+}
+
+func valueFor(r *rand.Rand, key string, wire bool) string {
+	lk := strings.ToLower(key)
+	switch {
+	case strings.HasSuffix(lk, "timeout"):
+		return common.Pick(r, timeouts)
+	case strings.HasSuffix(lk, "-bin"):
+		if wire {
+			return binValue(r)
+		}
+		return string(common.RandBytes(r, r.Intn(9), nil))
+	case r.Intn(10) == 0:
+		return binValue(r)
+	}
+	return strings.TrimSpace(printable(r)) + "v"
+}
+
+func genOpts(r *rand.Rand, reqPool []string) opts {
+	if r.Intn(8) == 0 {
+		return opts{} // default: deny everything
+	}
+	return opts{
+		AllowRequestMD: pickKeys(r, reqPool, 4), PrefixRequestMD: common.Pick(r, prefixPool),
+		AllowResponseMD: pickKeys(r, respKeys, 3), PrefixResponseMD: common.Pick(r, prefixPool),
+		AllowTrailerMD: pickKeys(r, respKeys, 3), PrefixTrailerMD: common.Pick(r, prefixPool),
+	}
+}
+
+// genMD: keys mostly taken from the allow-list (so the filter has work to do), lower-cased unless keepCase.
+func genMD(r *rand.Rand, allow []string, pool []string, lowerKeys bool, wire bool) map[string][]string {
+	md := map[string][]string{}
+	seenLower := map[string]bool{}
+	n := r.Intn(6)
+	for i := 0; i < n; i++ {
+		var k string
+		if len(allow) > 0 && r.Intn(3) != 0 {
+			k = common.Pick(r, allow)
+			if r.Intn(4) == 0 && len(k) > 14 && strings.EqualFold(k[:14], "grpc-metadata-") {
+				k = k[14:] // the stripped name itself: must NOT pass unless listed
+			}
+		} else {
+			k = common.Pick(r, pool)
+		}
+		if lowerKeys || r.Intn(3) != 0 {
+			k = strings.ToLower(k)
+		}
+		if seenLower[strings.ToLower(k)] {
+			continue
+		}
+		seenLower[strings.ToLower(k)] = true
+		nv := 1 + r.Intn(3)
+		if r.Intn(12) == 0 {
+			nv = 0
+		}
+		vs := []string{}
+		for j := 0; j < nv; j++ {
+			vs = append(vs, valueFor(r, k, wire))
+		}
+		md[k] = vs
+	}
+	return md
+}
+
+func nonEmptyVals(md map[string][]string) map[string][]string {
+	out := map[string][]string{}
+	for k, v := range md {
+		if len(v) > 0 {
+			out[k] = v
+		}
+	}
+	return out
+}
+
+// e2e-safe target metadata: printable values, no framing-relevant names
+func genRespMD(r *rand.Rand, allow []string) map[string][]string {
+	md := map[string][]string{}
+	n := r.Intn(4)
+	for i := 0; i < n; i++ {
+		k := strings.ToLower(common.Pick(r, respKeys))
+		if len(allow) > 0 && r.Intn(2) == 0 {
+			k = strings.ToLower(common.Pick(r, allow))
+		}
+		nv := 1 + r.Intn(2)
+		vs := []string{}
+		for j := 0; j < nv; j++ {
+			vs = append(vs, "t"+strings.TrimSpace(printable(r))+"v")
+		}
+		md[k] = vs
+	}
+	return md
+}
+
+func (Area) Gen(r *rand.Rand, tier string, emit func(string)) {
+	nBin, nFilt, nFwd, nE2E := 4000, 6000, 1500, 400
+	if tier == "thorough" {
+		nBin, nFilt, nFwd, nE2E = 200000, 300000, 30000, 4000
+	}
+	// ---- bin: edge cases then generated
+	for _, s := range []string{"", "=", "==", "A", "AA", "AAA", "AAAA", "AA==", "AAA=", "AA=", "A===", "AA==\n", "AA=\n=", "A\nAAA", "\n", "AAAA\r\n", "AAAAA", "AAAAAA", "AAAAAA==", "QUJD", "QUI", "QUI=", "QQ", "QQ==", "QR==", "QUJDRA", "-_-_", "AA==AA==", "AAA=AAAA", "A A=", "AAAA====", "/+/+"} {
+		emit("bin " + common.HexS(s))
+	}
+	for i := 0; i < nBin; i++ {
+		var s string
+		switch r.Intn(4) {
+		case 0:
+			s = string(common.RandBytes(r, r.Intn(10), []byte("AQz09+/=\n\r -_")))
+		case 1:
+			s = string(common.RandBytes(r, r.Intn(12), nil))
+		default:
+			s = binValue(r)
+		}
+		emit("bin " + common.HexS(s))
+	}
+	// ---- filt
+	emit("filt req " + showOpts(opts{}) + " " + fake.ShowMD(map[string][]string{"x-a": {"1"}, "grpc-timeout": {"10S"}}))
+	emit("filt req " + showOpts(opts{AllowRequestMD: []string{"grpc-metadata-grpc-timeout"}}) + " " + fake.ShowMD(map[string][]string{"grpc-metadata-grpc-timeout": {"1n"}}))
+	emit("filt req " + showOpts(opts{AllowRequestMD: []string{"timeout"}, PrefixRequestMD: "grpc-"}) + " " + fake.ShowMD(map[string][]string{"timeout": {"1n"}, "grpc-timeout": {"10S"}}))
+	emit("filt req " + showOpts(opts{AllowRequestMD: []string{"Grpc-Metadata-Data-Bin", "x-bin"}, PrefixRequestMD: "p-"}) + " " + fake.ShowMD(map[string][]string{"grpc-metadata-data-bin": {"QUJD", "QUI", "!!"}, "x-bin": {"QQ==", "QQ"}, "data-bin": {"QQ"}}))
+	for i := 0; i < nFilt; i++ {
+		which := common.Pick(r, []string{"req", "req", "resp", "trl"})
+		o := genOpts(r, keyPool)
+		allow := o.AllowRequestMD
+		pool := keyPool
+		if which == "resp" {
+			allow = o.AllowResponseMD
+		} else if which == "trl" {
+			allow = o.AllowTrailerMD
+		}
+		if which != "req" && r.Intn(2) == 0 {
+			pool = respKeys
+		}
+		// the other response list is offered as well: a swapped list/prefix must show
+		if which == "resp" && r.Intn(2) == 0 {
+			allow = append(append([]string{}, allow...), o.AllowTrailerMD...)
+		} else if which == "trl" && r.Intn(2) == 0 {
+			allow = append(append([]string{}, allow...), o.AllowResponseMD...)
+		}
+		md := genMD(r, allow, pool, false, true)
+		emit("filt " + which + " " + showOpts(o) + " " + fake.ShowMD(md))
+	}
+	// ---- fwd
+	for i := 0; i < nFwd; i++ {
+		o := genOpts(r, keyPool)
+		ctxMD := genMD(r, o.AllowRequestMD, keyPool, false, true)
+		if r.Intn(3) == 0 {
+			ctxMD[common.Pick(r, []string{"grpc-timeout", "Grpc-Timeout"})] = []string{common.Pick(r, timeouts)}
+			delete(ctxMD, common.Pick(r, []string{"grpc-timeout", "Grpc-Timeout"}))
+		}
+		hdr := genMD(r, append(append([]string{}, o.AllowResponseMD...), o.AllowTrailerMD...), respKeys, true, false)
+		trl := genMD(r, append(append([]string{}, o.AllowTrailerMD...), o.AllowResponseMD...), respKeys, true, false)
+		emit(fmt.Sprintf("fwd %s %s %s %s %s", showOpts(o), fake.ShowMD(dedupLower(ctxMD)), fake.ShowMD(hdr), fake.ShowMD(trl), common.Pick(r, []string{"unary", "stream"})))
+	}
+	// ---- e2e
+	for _, entry := range []string{"http", "ws", "grpcweb", "grpcws", "proxy"} {
+		for i := 0; i < nE2E; i++ {
+			o := genOpts(r, tokenKeys)
+			wire := entry != "proxy"
+			sent := nonEmptyVals(genMD(r, o.AllowRequestMD, tokenKeys, false, wire))
+			for k, vs := range sent { // header-safe values
+				for j, v := range vs {
+					vs[j] = headerSafe(v)
+				}
+				sent[k] = vs
+			}
+			if r.Intn(3) == 0 {
+				sent["grpc-timeout"] = []string{common.Pick(r, timeouts)}
+			}
+			if entry == "proxy" {
+				// only what grpc-go will put on the wire: lower-case valid keys, no reserved grpc- names, printable values unless -bin
+				for k := range sent {
+					lk := strings.ToLower(k)
+					if lk != k || (strings.HasPrefix(lk, "grpc-") && lk != "grpc-timeout" && !strings.HasPrefix(lk, "grpc-metadata-")) || lk == "user-agent" || lk == "te" {
+						delete(sent, k)
+					}
+				}
+			}
+			var pairs [][2]string
+			switch entry {
+			case "ws":
+				spelling := map[string]string{} // case variants of one key would make the value order depend on Go map order (C19)
+				for j := r.Intn(4); j > 0; j-- {
+					k := common.Pick(r, tokenKeys)
+					if len(o.AllowRequestMD) > 0 && r.Intn(2) == 0 {
+						k = common.Pick(r, o.AllowRequestMD)
+					}
+					if first, ok := spelling[strings.ToLower(k)]; ok {
+						k = first
+					} else {
+						spelling[strings.ToLower(k)] = k
+					}
+					v := headerSafe(valueFor(r, k, true))
+					if r.Intn(10) == 0 {
+						v += "\x01"
+					}
+					if r.Intn(10) == 0 {
+						k += "!"
+					}
+					pairs = append(pairs, [2]string{k, v})
+				}
+			case "grpcws":
+				for k, vs := range sent {
+					_ = k
+					_ = vs
+				}
+				for _, k := range sortedKeys(sent) {
+					for _, v := range sent[k] {
+						pairs = append(pairs, [2]string{k, v})
+					}
+				}
+				sent = map[string][]string{}
+				if r.Intn(2) == 0 { // upgrade-request headers must NOT become metadata on this entry point
+					sent[common.Pick(r, tokenKeys)] = []string{"hdr" + printable(r) + "v"}
+				}
+			}
+			thdr := genRespMD(r, o.AllowResponseMD)
+			ttrl := genRespMD(r, o.AllowTrailerMD)
+			emit(fmt.Sprintf("e2e %s %s %s %s %s %s %s", entry, showOpts(o), fake.ShowMD(sent), fake.ShowPairs(pairs), fake.ShowMD(thdr), fake.ShowMD(ttrl), common.Pick(r, []string{"unary", "stream"})))
+		}
+	}
+}
+
+func headerSafe(v string) string {
+	b := []byte(v)
+	for i, c := range b {
+		if c < 0x21 || c > 0x7e {
+			b[i] = 'A' + c%26
+		}
+	}
+	if len(b) == 0 {
+		return "e"
+	}
+	return string(b)
+}
+
+// dedupLower drops entries whose lower-cased key collides with another entry (Go map order would decide).
+func dedupLower(md map[string][]string) map[string][]string {
+	out := map[string][]string{}
+	seen := map[string]bool{}
+	for _, k := range sortedKeys(md) {
+		lk := strings.ToLower(k)
+		if seen[lk] {
+			continue
+		}
+		seen[lk] = true
+		out[k] = md[k]
+	}
+	return out
+}
